@@ -198,3 +198,41 @@ def push_slices(e):
                 return ast.UnaryOp(op=v.op, operand=self.visit(ast.Subscript(value=v.operand, slice=copy.deepcopy(node.slice), ctx=ast.Load())))
             return node
     return ast.fix_missing_locations(T().visit(copy.deepcopy(e)))
+
+
+UFUNC_COMPARE = {'less': ast.Lt, 'greater': ast.Gt, 'less_equal': ast.LtE, 'greater_equal': ast.GtE, 'equal': ast.Eq, 'not_equal': ast.NotEq}
+UFUNC_BINOP = {'add': ast.Add, 'subtract': ast.Sub, 'multiply': ast.Mult, 'divide': ast.Div, 'true_divide': ast.Div, 'power': ast.Pow}
+
+
+def canon_ufuncs(e):
+    """np.less(a, b) -> a < b, np.multiply(a, b) -> a * b, np.negative(a) -> -a  (the operators are these ufuncs on arrays)"""
+    import copy
+
+    class T(ast.NodeTransformer):
+        def visit_Call(self, node):
+            self.generic_visit(node)
+            f = node.func
+            if isinstance(f, ast.Attribute) and isinstance(f.value, ast.Name) and f.value.id in ('np', 'numpy') and not node.keywords:
+                if f.attr in UFUNC_COMPARE and len(node.args) == 2:
+                    return ast.Compare(left=node.args[0], ops=[UFUNC_COMPARE[f.attr]()], comparators=[node.args[1]])
+                if f.attr in UFUNC_BINOP and len(node.args) == 2:
+                    return ast.BinOp(left=node.args[0], op=UFUNC_BINOP[f.attr](), right=node.args[1])
+                if f.attr == 'negative' and len(node.args) == 1:
+                    return ast.UnaryOp(op=ast.USub(), operand=node.args[0])
+            return node
+    return ast.fix_missing_locations(T().visit(copy.deepcopy(e)))
+
+
+def reaching_value(func, name, stmt):
+    """value of the closest assignment `name = ..` that precedes stmt in the same block (straight-line reaching definition);
+    None if there is none"""
+    for node in ast.walk(func):
+        for attr in ('body', 'orelse', 'finalbody'):
+            blk = getattr(node, attr, None)
+            if isinstance(blk, list) and stmt in blk:
+                for prev in reversed(blk[:blk.index(stmt)]):
+                    if isinstance(prev, ast.Assign) and len(prev.targets) == 1 and isinstance(prev.targets[0], ast.Name) and prev.targets[0].id == name:
+                        return prev.value
+                    if any(isinstance(n, ast.Name) and n.id == name and isinstance(n.ctx, ast.Store) for n in ast.walk(prev)):
+                        return None
+    return None
